@@ -613,3 +613,94 @@ def xrealm(rng):
     L.append("var R3=(R2.createRealm?R2.createRealm():$iso.createRealm());")
     L.append("ck('fresh realm pristine',R3.evalScript(\"[1,2].map(function(x){return x*2}).join()+Object.keys({a:1}).join()+('poison' in {})+('pz' in {})\")==='2,4afalsefalse');")
     return "\n".join(L), ["xrealm"]
+
+
+# ------------------------------------------------------------------------------------------------
+# realm-mechanism call trees (deepening round): JS + harness natives on one side, Deep_Realm_C20.act on the other
+
+TREE_P = "print('P '+[].__rid+(__gid===[].__rid?'':' G'+__gid));"
+
+
+def realm_tree(rng):
+    """Returns (main_js, defs [(realm, src)], coq term of the host-level act list, K, features)."""
+    import json as _json
+    K = rng.randrange(2, 5)
+    defs, counter, feats = [], [0], set()
+
+    def new_fn(depth):
+        m = counter[0]
+        counter[0] += 1
+        rm = rng.randrange(K)
+        js, cq = body(rm, depth + 1)
+        defs.append((rm, "T.f%d=function(){%s}" % (m, js)))
+        return m, rm, cq
+
+    def body(realm, depth):
+        js, cq = [], []
+        for _ in range(rng.randrange(1, 4 if depth < 3 else 3)):
+            r = rng.random()
+            if r < 0.30 or depth >= 4:
+                js.append(TREE_P)
+                cq.append("AProbe")
+            elif r < 0.40:
+                bj, bc = body(realm, depth + 1)
+                js.append("try{%s}catch(e){print('C');}" % bj)
+                cq.append("ATry [%s]" % bc)
+                feats.add("js-try")
+            elif r < 0.48:
+                js.append("throw 1;")
+                cq.append("AThrow")
+                feats.add("js-throw")
+                break
+            elif r < 0.66:
+                m, rm, fc = new_fn(depth)
+                js.append("T.f%d();" % m)
+                cq.append("ACallFn %d [%s]" % (rm, fc))
+                if rm != realm:
+                    feats.add("cross-realm-fn-call")
+            else:
+                k = rng.randrange(K)
+                cur = k
+                toks, args, nb = [], [], []
+                construct = rng.random() < 0.3
+                for _ in range(rng.randrange(1, 6)):
+                    t = rng.choice("pppeeccyyszrt")
+                    if t == "p":
+                        toks.append("p")
+                        nb.append("AProbe")
+                    elif t == "e":
+                        cur = rng.randrange(K)
+                        toks.append("e%d" % cur)
+                        nb.append("AEnter %d" % cur)
+                        feats.add("native-enter-without-restore")
+                    elif t in "cy":
+                        m, rm, fc = new_fn(depth)
+                        toks.append("%s%d" % (t, len(args)))
+                        args.append("T.f%d" % m)
+                        nb.append(("ACallFn %d [%s]" if t == "c" else "ATry [ACallFn %d [%s]]") % (rm, fc))
+                        feats.add("native-callback" + ("-swallow" if t == "y" else ""))
+                    elif t in "sz":
+                        bj, bc = body(cur, depth + 1)
+                        toks.append("%s%d" % (t, len(args)))
+                        args.append(_json.dumps(bj))
+                        nb.append(("AEval [%s]" if t == "s" else "ATry [AEval [%s]]") % bc)
+                        feats.add("native-eval")
+                    elif t == "r":
+                        toks.append("r")
+                        nb.append("ACreateRealm")
+                        feats.add("create-realm")
+                    else:
+                        toks.append("t")
+                        nb.append("AThrow")
+                        feats.add("native-throw")
+                        break
+                call = ("new T.natc[%d](%s);" if construct else "T.nat[%d](%s);") % (k, ", ".join([_json.dumps(" ".join(toks))] + args))
+                if construct:
+                    feats.add("native-construct")
+                js.append(call)
+                cq.append("ACallNative (Some %d) [%s]" % (k, "; ".join(nb)))
+        return " ".join(js), "; ".join(cq)
+
+    mj, mc = body(0, 0)
+    coq = "[AProbe; ATry [AEval [%s]]; AProbe]" % mc
+    return mj, defs, coq, K, sorted(feats)
